@@ -23,14 +23,16 @@
 EXTENDS Integers, Sequences, FiniteSets, TLC, Json
 CONSTANTS Keys,          \* e.g. {1, 2}
           MaxParams,
-          Clauses
+          Clauses,
+          AllBases       \* TRUE: every parameter set's value is tried below (10+i) and above (30+i) the stored 20 for every clause;
+                         \* FALSE: both only for the clauses with a WHERE (the only place where the comparison decides anything), above otherwise
 VARIABLES st, last
 vars == <<st, last>>
 Absent == [v |-> 0, w |-> 0]
-Bases == {10, 30}
+Bases(c) == IF AllBases \/ c \in {"excluded_where", "literal_where", "sum_where"} THEN {10, 30} ELSE {30}
 IsUpdate(c) == c \notin {"nothing", "nothing_any"}
 HasWhere(c) == c \in {"excluded_where", "literal_where", "sum_where"}
-ParamSets(n) == [1..n -> [k : Keys, b : Bases]]
+ParamSets(n, c) == [1..n -> [k : Keys, b : Bases(c)]]
 PV(st_, i) == st_.params[i].b + i
 PW(i) == 100 + i
 \* the structure a compiled statement must show for the clause (compile-shape conformance on PostgreSQL / MySQL, and on SQLite itself)
@@ -62,7 +64,7 @@ DoApply(s) ==
       ret |-> outcome]
 Apply == /\ st.i <= Len(st.params)
          /\ LET r == DoApply(st) IN st' = r.st /\ last' = [a |-> "Apply", i |-> st.i, k |-> st.params[st.i].k, ret |-> r.ret]
-Init == /\ \E existing \in SUBSET Keys : \E clause \in Clauses : \E n \in 0..MaxParams : \E params \in ParamSets(n) :
+Init == /\ \E existing \in SUBSET Keys : \E clause \in Clauses : \E n \in 0..MaxParams : \E params \in ParamSets(n, clause) :
              st = InitSt(existing, clause, params)
         /\ last = [a |-> "init", i |-> 0, k |-> 0, ret |-> ""]
 Next == Apply
